@@ -24,11 +24,31 @@ import (
 	"time"
 )
 
-const (
+// Directories are derived from the location of the running binary (<verif>/bin/vcheck), so a
+// snapshot of /verif started with `vp run` uses its own harness sources, build and evidence dirs.
+var (
 	verifDir   = "/verif"
 	harnessDir = "/verif/harness"
 	buildDir   = "/verif/.build"
 )
+
+func init() {
+	if d := os.Getenv("VERIF_DIR"); d != "" {
+		verifDir = d
+	} else if exe, err := os.Executable(); err == nil {
+		if root := filepath.Dir(filepath.Dir(exe)); fileExists(filepath.Join(root, "harness", "go.mod")) {
+			verifDir = root
+		}
+	}
+	harnessDir = filepath.Join(verifDir, "harness")
+	buildDir = filepath.Join(verifDir, ".build")
+}
+
+func fileExists(p string) bool {
+	_, err := os.Stat(p)
+
+	return err == nil
+}
 
 type violation struct {
 	Props  []string `json:"props"`
